@@ -209,6 +209,8 @@ def run(ctx):
             setup_lines.append(('setup', G.set_unary_line(f'{name}_{lang}', tbl), 'ok', lang))
             tsig = {sig(k): [sig(v) for v in vs] for k, vs in tbl.items()}
             probes = list(tbl.keys()) + rng.sample(lhs_pool, 150) + [gen_cat.perturb(rng, k, [a.feature for a in (en_atoms if lang == 'en' else ja_atoms)]) for k in tbl.keys()]
+            import collections
+            dd = collections.defaultdict(list, tbl)
             for x in probes:
                 desc = [lang, name, canonical(x)]
                 sx = sig(x)
@@ -224,6 +226,16 @@ def run(ctx):
                     ctx.nontrivial_add(('unary', lang, name, desc[2]))
                 if sig(x) != sx or {sig(k): [sig(v) for v in vs] for k, vs in tbl.items()} != tsig:
                     ctx.fail('unary rules changed their arguments', desc, fingerprint=['unary-mut'] + desc)
+                # the table as depccg's own loader builds it (a defaultdict): same answer, table untouched
+                rs2, out2 = G.call_rules(mod.apply_unary_rules, x, dd)
+                ctx.evaluations += 1
+                if out2 != out:
+                    ctx.fail(f'unary rules answer differently for a defaultdict table ({out2[:80]} vs {out[:80]})', desc,
+                             fingerprint=['unary-defaultdict'] + desc)
+                if len(dd) != len(tbl):
+                    ctx.fail(f'looking up a category without unary rules changed the table argument ({len(tbl)} -> {len(dd)} entries)',
+                             desc, fingerprint=['unary-mut-table'] + desc[:2])
+                    dd = collections.defaultdict(list, tbl)
 
     # ---- other processes / hash seeds ------------------------------------------------------------
     seeds = list(range(ctx.budget(6, 48)))
